@@ -47,8 +47,8 @@ func liveRetransmitters() int {
 func TestC22RetransmissionStops(t *testing.T) {
 	col := stats.Get("C22.hist")
 	rapid.Check(t, func(t *rapid.T) {
-		h := newHist(t, HistCfg{MaxSteps: 26, Chains: []string{"btc", "lbtc"}, Restarts: true, Timeouts: true, Drops: true, PayOutcomes: true,
-			Weights: map[string]int{"start": 0, "progress": 10, "deliver": 1, "settle": 0, "restart": 1, "mine": 2, "watcher": 1, "paid": 1, "timeout": 1, "payplan": 1, "resolve": 1, "tick": 6, "peer": 3, "offline": 3}})
+		h := newHist(t, HistCfg{MaxSteps: 26, Chains: []string{"btc", "lbtc"}, Restarts: true, Timeouts: true, Drops: true, PayOutcomes: true, BigMines: true,
+			Weights: map[string]int{"start": 0, "progress": 10, "deliver": 1, "settle": 0, "restart": 1, "mine": 2, "watcher": 2, "paid": 1, "timeout": 1, "payplan": 1, "resolve": 1, "tick": 6, "peer": 3, "offline": 3, "restartmaker": 2}})
 		defer h.Close()
 		// reboot both nodes with the real messages.Manager and harness-owned tick channels
 		for _, n := range h.nodes() {
@@ -209,10 +209,34 @@ func TestC22RetransmissionStops(t *testing.T) {
 			for i := 0; i < cnt; i++ {
 				q = append(q, sim.FaultBefore)
 			}
-			call := rapid.SampledFrom([]string{"msg.Send", "msg.Send", "store.UpdateData"}).Draw(t, "offCall")
+			call := rapid.SampledFrom([]string{"msg.Send", "msg.Send", "store.UpdateData", "wallet.CreateCsvSpendingTransaction"}).Draw(t, "offCall")
+			if call == "wallet.CreateCsvSpendingTransaction" {
+				// a refund that keeps failing (fee spike, wallet locked): the swap sits in its claiming state
+				for i := 0; i < 30; i++ {
+					q = append(q, sim.FaultBefore)
+				}
+			}
 			n.Faults[call] = q
 			h.opf("offline(%s,%s,skip=%d,n=%d)", n.Name, call, skip, cnt)
 			h.class("failure-planned:" + call)
+		}
+		// the maker is restarted after its swap has left the waiting state (cancel received, csv pending)
+		acts["restartmaker"] = func() {
+			for _, n := range h.nodes() {
+				if !h.alive(n) {
+					continue
+				}
+				for _, s := range n.Swaps() {
+					if isTaker(s) || isTerminal(s.Current) || s.Data.OpeningTxBroadcasted == nil || waitingForTaker(string(s.Current)) {
+						continue
+					}
+					h.opf("restart-maker(%s in %s)", n.Name, strings.TrimPrefix(string(s.Current), "State_"))
+					h.class("maker-restarted-after-waiting")
+					n.Kill()
+					h.reboot(n, false)
+					return
+				}
+			}
 		}
 		acts["peer"] = func() {
 			for _, n := range h.nodes() {
@@ -244,6 +268,36 @@ func TestC22RetransmissionStops(t *testing.T) {
 			}
 		}
 		h.run(acts)
+		// in a third of the histories the taker now stays silent until the csv matures and the maker's
+		// refund keeps failing: the swap has left the waiting state (it sits in its claiming state, retrying
+		// or given up), so its retransmitter is gone however the claim goes
+		if !h.stop && rapid.IntRange(0, 2).Draw(t, "failingRefundPhase") == 0 {
+			for _, m := range h.W.PendingMsgs() {
+				h.W.Drop(m)
+			}
+			for _, n := range h.nodes() {
+				var q []sim.FaultKind
+				for i := 0; i < 40; i++ {
+					q = append(q, sim.FaultBefore)
+				}
+				n.Faults["wallet.CreateCsvSpendingTransaction"] = q
+			}
+			for _, c := range h.Cfg.Chains {
+				h.W.Mine(c, csvFor(c))
+			}
+			h.opf("silent-until-csv(refund failing)")
+			h.class("failing-refund-phase")
+			for k := 0; k < 3 && !h.stop; k++ {
+				h.actWatcherAll()
+				for _, m := range h.W.PendingMsgs() {
+					h.W.Drop(m)
+				}
+				offerAll()
+				if !h.stop {
+					checkLoops("failing-refund")
+				}
+			}
+		}
 		// drive everything to the end and keep ticking: nothing may retransmit any more
 		if !h.stop {
 			closureSilentPeer(h, 3)
